@@ -1596,6 +1596,8 @@ where
                 if gone {
                     // Leave it at the LRU front and stop here: what is behind it will
                     // be looked at again once its removal op has been applied.
+                    #[cfg(mini_moka_verif)]
+                    crate::verif::probe("cause.size_eviction_blocked", 0);
                     break;
                 }
             }
